@@ -397,6 +397,12 @@ func (h *http2FrameTracer) traceFrameLocked(data []byte) (int, bool) {
 }
 
 func (h *http2FrameTracer) emitFrame() bool {
+	if (h.header.Type == http2.FrameHeaders || h.header.Type == http2.FrameContinuation) &&
+		!h.header.Flags.Has(http2.FlagHeadersEndHeaders) {
+		// The header block continues in CONTINUATION frame(s). Keep what we have
+		// buffered so the framer below gets to see the complete header block.
+		return true
+	}
 	defer func() {
 		h.frame.Reset()
 	}()
